@@ -22,7 +22,7 @@ rational arithmetic:
     again); u is taken from the OUTPUT precision
     f: the value is mantissa * 2^exponent of the returned pair.
 """
-import json, os, re, math, struct, decimal
+import json, os, re, math, struct
 from fractions import Fraction
 from concurrent.futures import ThreadPoolExecutor
 import vf
@@ -351,45 +351,43 @@ def sqrt_ratio(fr):
     return math.sqrt(n / d)
 
 
-DCTX = decimal.Context(prec=40, Emax=10 ** 12, Emin=-10 ** 12)
+K_NRM = 32                      # mantissa bits kept by the extracted modulus bound dy_nrm (relative excess <= 2^-30)
+ERRVEC_TOL = Fraction(1, 10 ** 6)
 
 
-def dmod(z):
-    return DCTX.sqrt(decimal.Decimal(z[0] * z[0] + z[1] * z[1]))
+def run_errvec_model(ctx, todo):
+    """todo: list of (case, wp).  Runs the EXTRACTED model of the function as it is at HEAD
+    (coq/Hess/HessModelM.v mhess_head, instantiated in HessDyadic.v: exact Gaussian dyadic values, bounds rounded
+    up at 2^-63 per operation) and stores case['errmodel'][wp] = (error bound, exact determinant) as Fractions."""
+    if not todo:
+        return
+    def cost(t):
+        c = t[0]
+        return c["n"] ** 3 * (c["sc"] + 8) ** 2
+    todo = sorted(todo, key=cost, reverse=True)
+    nb = min(8, len(todo))
+    buckets = [[] for _ in range(nb)]
+    loads = [0] * nb
+    for t in todo:
+        k = loads.index(min(loads)); buckets[k].append(t); loads[k] += cost(t)
 
+    def line(c, wp):
+        return "E %d %d %d %d %s" % (c["n"], K_NRM, c["sc"], wp, " ".join(hx(v) for v in c["ints"]))
 
-def mhess_err_model(case, wp):
-    """the error vector of mps_mhessenberg_shifted_determinant as coded (coq/Hess/HessModel.v, Section
-    ErrVec: mhess_rec), evaluated on the exact trajectory with 40-digit moduli; used only to notice that
-    the implementation's error bound became SMALLER than the analysed recurrence (correspondence)."""
-    D = decimal.Decimal
-    n, sc = case["n"], case["sc"]
-    ints = case["ints"]
-    s = (ints[0], ints[1])
-    H = [(ints[2 + 2 * k], ints[3 + 2 * k]) for k in range(n * n)]
-    def hs(i, j):
-        return csub(H[i * n + j], s) if i == j else H[i * n + j]
-    eps = DCTX.power(D(2), D(1 - wp))
-    scf = DCTX.power(D(2), D(sc))
-    vec = [hs(i, n - 1) for i in range(n)]
-    verr = [D(0)] * n
-    mul, add = DCTX.multiply, DCTX.add
-    for l in range(n - 1, 0, -1):
-        c = hs(l, l - 1)
-        a_bot = dmod(c)
-        verr[l] = add(verr[l], mul(dmod(vec[l]), eps))
-        for i in range(l):
-            a = hs(i, l - 1)
-            err_a = mul(dmod(a), verr[l])
-            err_b = mul(add(mul(dmod(vec[i]), eps), verr[i]), a_bot)
-            new = csub(cmul(a, vec[l]), cmul(vec[i], c))
-            # verrors[i] += ... : the old verrors[i] (error of the entry of column l) is carried over as is,
-            # although the new entry has one more factor: in the integer scaling (entries * 2^sc) it picks
-            # up 2^sc.  (The returned bound is therefore not scale invariant; it only over-estimates.)
-            verr[i] = add(add(add(mul(verr[i], scf), mul(dmod(new), eps)), err_a), err_b)
-            vec[i] = new
-        vec = vec[:l]
-    return DCTX.multiply(verr[0], DCTX.power(D(2), D(-sc * n)))
+    def work(b):
+        if not b: return []
+        out = ctx.run_model("hess", "\n".join(line(c, wp) for c, wp in b) + "\n")
+        rows = [r for r in out.split("\n") if r.strip()]
+        if len(rows) != len(b):
+            raise vf.InfraError("hess model (E): %d results for %d cases" % (len(rows), len(b)))
+        return list(zip(b, rows))
+    with ThreadPoolExecutor(max_workers=nb) as ex:
+        for res in ex.map(work, buckets):
+            for (c, wp), row in res:
+                f = row.split()
+                de = int(f[2])
+                det = (Fraction(unhx(f[0])) * pow2(de), Fraction(unhx(f[1])) * pow2(de))
+                c.setdefault("errmodel", {})[wp] = (Fraction(unhx(f[3])) * pow2(int(f[4])), det)
 
 
 def gamma(k, u):
@@ -409,7 +407,8 @@ class Judge:
         self.maxratio_cls = {}
         self.errvec_compared = 0
         self.errvec_smaller = []
-        self.errvec_larger = 0
+        self.errvec_larger = []
+        self.errvec_ratio = (float("inf"), 0.0)
         self.reported = set()
         self.samples = []
 
@@ -525,15 +524,20 @@ class Judge:
                     continue
                 self.count("m-prec:" + prec_kind(spec))
                 self.check_value(case, "m", (vre, vim), C_M, Fraction(2) ** (1 - wp), wp=wp, errbound=eb, spec=spec)
-                # correspondence of the error vector with the analysed recurrence (model of the code)
-                D = decimal.Decimal
-                em_model = mhess_err_model(case, wpe)
-                got = DCTX.multiply(D(em), DCTX.power(D(2), D(ee)))
-                self.errvec_compared += 1
-                if got < DCTX.multiply(em_model, D("0.999999")):
-                    self.errvec_smaller.append((case, wp, str(got), str(em_model)))
-                elif got > DCTX.multiply(em_model, D("1.000001")):
-                    self.errvec_larger += 1
+                # correspondence of the error vector with the extracted model of the code (both directions)
+                mod = case.get("errmodel", {}).get(wpe)
+                if mod is not None:
+                    em_model, det_model = mod
+                    if det_model != case["det"]:
+                        raise vf.InfraError("case %s: the two extracted determinant oracles disagree" % case["id"])
+                    self.errvec_compared += 1
+                    if eb < em_model * (1 - ERRVEC_TOL):
+                        self.errvec_smaller.append((case, wp, "%.17g" % float(eb), "%.17g" % float(em_model)))
+                    elif eb > em_model * (1 + ERRVEC_TOL):
+                        self.errvec_larger.append((case, wp, "%.17g" % float(eb), "%.17g" % float(em_model)))
+                    if em_model > 0:
+                        rt = float(eb / em_model)
+                        self.errvec_ratio = (min(self.errvec_ratio[0], rt), max(self.errvec_ratio[1], rt))
         if len(self.samples) < 6 and case["n"] <= 3:
             self.samples.append({"id": case["id"], "cls": case["cls"], "n": case["n"], "shift": [tok(v) for v in case["s"]],
                                  "H": [[tok(v) for v in z] for z in case["H"]],
@@ -561,19 +565,20 @@ def report_crash(ctx, judge, cases, res, rc, err, variants):
 
 
 def report_errvec(ctx, judge):
-    """verdict rule 2: the returned error bound is smaller than the modelled error recurrence although the
+    """verdict rule 2: the returned error bound differs from the modelled error recurrence although the
     predicate (error <= bound) still held on every case -> the model no longer describes the code"""
-    if not judge.errvec_smaller:
-        return
-    if any(s.startswith("errbound:") for s, _, _, _ in ctx.violations):
+    if any(sg.startswith("errbound:") for sg, _, _, _ in ctx.violations):
         return                      # a concrete failing input has been reported already
-    case, wp, got, want = judge.errvec_smaller[0]
-    ctx.violation("correspondence:m-error-vector-smaller-than-model",
-                  "mps_mhessenberg_shifted_determinant returns an error bound smaller than the recurrence modelled in "
-                  "coq/Hess/HessModel.v (mhess_rec) on %d of %d comparisons (first: order %d, wp %d: %s < %s); no input "
-                  "was found on which the true error exceeds the returned bound" % (len(judge.errvec_smaller), judge.errvec_compared,
-                                                                                    case["n"], wp, got[:12], want[:12]),
-                  judge.replay_obj(case, "m", {"wp": wp, "returned": got, "model": want}), no_input=True)
+    for lst, word in ((judge.errvec_smaller, "smaller"), (judge.errvec_larger, "larger")):
+        if not lst:
+            continue
+        case, wp, got, want = lst[0]
+        ctx.violation("correspondence:m-error-vector-%s-than-model" % word,
+                      "mps_mhessenberg_shifted_determinant returns an error bound %s than the recurrence modelled in "
+                      "coq/Hess/HessModelM.v (mhess_head, extracted) on %d of %d comparisons (first: order %d, wp %d: %s vs %s); no input "
+                      "was found on which the true error exceeds the returned bound" % (word, len(lst), judge.errvec_compared,
+                                                                                        case["n"], wp, got[:12], want[:12]),
+                      judge.replay_obj(case, "m", {"wp": wp, "returned": got, "model": want}), no_input=True)
 
 
 def evaluate(ctx, h, cases, judge):
@@ -584,6 +589,12 @@ def evaluate(ctx, h, cases, judge):
     # f and m variants, real allocation sizes
     rc, res, err = run_harness(ctx, h, cases, "fm", 0)
     done = [c for c in cases if res.get(c["id"], {}).get("done")]
+    todo = {}
+    for c in done:
+        for m in res.get(c["id"], {}).get("m", []):
+            todo[(c["id"], m[5])] = (c, m[5])
+    run_errvec_model(ctx, list(todo.values()))
+    ctx.log("model: %d error vectors (extracted HEAD model)" % len(todo))
     for c in done: judge.judge_case(c, res, "fm")
     if rc != 0 or len(done) != len(cases):
         report_crash(ctx, judge, cases, res, rc, err, "fm")
@@ -641,7 +652,8 @@ def run(ctx):
         "max_error_over_bound": judge.maxratio,
         "max_error_over_bound_by_class": dict(sorted(judge.maxratio_cls.items())),
         "m_error_vector": {"compared_with_model": judge.errvec_compared, "smaller_than_model": len(judge.errvec_smaller),
-                           "larger_than_model": judge.errvec_larger},
+                           "larger_than_model": len(judge.errvec_larger), "tolerance": "1e-6 relative, both directions",
+                           "returned_over_model_min_max": list(judge.errvec_ratio)},
         "d_variant_values_from_padded_run": getattr(judge, "padded_d", None),
         "constants": {"C_f": C_F, "C_d": C_D, "C_m": C_M, "u_f": "2^-53", "u_d": "2^-52", "u_m": "2^(1-wp)",
                       "bound": "gamma(C n, u) * B, B = recurrence on moduli (rounded up at 2^-%d)" % K_MOD},
@@ -652,7 +664,7 @@ def run(ctx):
             "harness/c20_hess.c (exact export: bit patterns of doubles, mpf_get_str base 16) and the exact rational predicate in checks/C20.py",
             "the standard rounding model (no underflow/overflow) for the a-priori theorem; constants C documented in checks/C20.py",
             "mathcomp algebra-tactics `ring` (elpi) used in HessApriori.v/HessErrVec.v; proof terms are checked by the kernel",
-            "checks/C20.py mhess_err_model: 40-digit decimal evaluation of the modelled error vector (correspondence only, not the predicate)",
+            "extracted mhess_head_dy (HessDyadic.v): exact Gaussian dyadic values, dyadic bounds rounded up (dy_norm, modulus cut to 32 bits): correspondence of the m error vector only, not the predicate",
             "modelled, not verified: the frexp/pow exponent choice of the double variant (theorem holds for every policy), mpf/rdpe primitive roundings (C12/C13)",
         ],
     }
